@@ -1,5 +1,5 @@
 """C12 - latest-run addressing and bounded retention hold over any run history."""
-import hashlib, json, os, re
+import hashlib, json, os, re, subprocess, time
 import vlib, runscen
 
 THEOREMS = [("Properties.C12", "C12_holds")]
@@ -11,7 +11,7 @@ LEVEL_NOTE = ("Coq theorem C12_holds (every max_retained_runs >= 1, every histor
 TRUSTED = ["Coq 8.16.1 kernel; no axioms", "extraction + vmodel; Harness/Glue.v check_tracking", "zstd decoding of stored files by the zstd crate in the harness",
            "scope: invocations that reach execution (a run rejected after slot set-up wipes the next slot without advancing the pointer; outside 'sequence of runs')",
            "modelled, not verified: the Rust source"]
-RULE = ("M in {1,2,3,5}; 3M+2 runs per history, each with a random non-empty subset of 3 commands, explicit targets or all targets, sometimes a failing or undefined command; "
+RULE = ("M in {1,2,3,5} and two-digit M (10; thorough 10,11,12); 3M+2 runs per history, each with a random non-empty subset of 3 commands, explicit targets or all targets, sometimes a failing or undefined command, an aborted invocation in between (20%), or another (quick) `run` attempted while the run executes; "
         "non-trivial = history step at which some slot has been reused (run number > M) or a failure occurred; distinct by (M, step, invocation)")
 
 CFG = {"targets": [{"path": "libs/a"}, {"path": "libs/b", "uses": ["libs/a"]}, {"path": "app", "uses": ["libs/b/src"]}, {"path": "tools"}]}
@@ -45,7 +45,41 @@ def history(ctx, rng, M, n_runs):
                 other = ["-c"] + rng.sample(CMDS, rng.randint(1, 3))
                 rr.run(*other, env={"MONORAIL_VERIF_POINTS": "run_before_store_result=abort:1"})
                 ctx.count("aborted_invocation")
-            rc, out, err, raw = rr.run(*args)
+            overlapped = None
+            spare = [c for c in CMDS if c not in cmds]
+            if spare and rng.random() < 0.3:
+                # while this run is executing, another `run` (a quick one, other command) is attempted on the same repository: it is
+                # not one of the completed runs r1..rk, and the history must come out exactly as if it had never been tried
+                for c in cmds:
+                    for t in CFG["targets"]: rr.script.setdefault("%s|%s" % (c, t["path"]), {})["sleep_ms"] = 1200
+                rr.write_script()
+                rr.run_no += 1; rr.clear_traces(); a_no = rr.run_no
+                base = [vlib.BIN_MONORAIL, "-f", os.path.join(rr.repo, "Monorail.json"), "run"]
+                env = dict(os.environ); env.update(vlib.GIT_ENV); env.update(rr.env())
+                pa = subprocess.Popen(base + args, cwd=rr.repo, env=env, stdout=subprocess.PIPE, stderr=subprocess.PIPE)
+                t0 = time.time()
+                while not rr.traces() and time.time() - t0 < 10 and pa.poll() is None: time.sleep(0.02)
+                tried = False
+                if pa.poll() is None and rr.traces():
+                    rr.run_no = a_no + 1
+                    envb = dict(os.environ); envb.update(vlib.GIT_ENV); envb.update(rr.env())
+                    pb = subprocess.run(base + ["-c", spare[0]], cwd=rr.repo, env=envb, capture_output=True, timeout=120)
+                    tried = True
+                    a_alive_after = pa.poll() is None
+                so, se = pa.communicate(timeout=180)
+                rr.run_no = a_no
+                rc, out, err = pa.returncode, None, None
+                for line in reversed(so.decode("utf-8", "replace").strip().splitlines()):
+                    try: out = json.loads(line); break
+                    except Exception: continue
+                if tried and not a_alive_after:
+                    # the first run ended while the second was being started: which of them came first is a matter of timing, so
+                    # this history says nothing (never observed with 1.2 s tasks; kept for soundness under load)
+                    ctx.count("overlap_ambiguous"); return
+                if tried:
+                    overlapped = {"intruder_rc": pb.returncode}; ctx.count("overlapping_invocation")
+            else:
+                rc, out, err, raw = rr.run(*args)
             case = {"M": M, "step": n, "args": args, "script": rr.script}
             if out is None:
                 ctx.record(case, True, False, False, False, detail={"what": "run produced no result document", "rc": rc, "err": err})
@@ -101,14 +135,14 @@ def history(ctx, rng, M, n_runs):
             ctx.record(case, True, agree, ok, nontriv,
                        sample={"M": M, "step": n, "args": args, "pointer": ptr, "slot_dirs": sorted(str(k) for k in slots)} if nontriv else None,
                        detail={"ok_show": ok_show, "ok_slot": ok_slot, "leftovers": leftovers, "foreign": foreign, "ok_logs": ok_logs, "why": why,
-                               "extra_dirs": extra_dirs, "model_agrees": agree, "spec": spec, "pointer": ptr})
+                               "extra_dirs": extra_dirs, "model_agrees": agree, "spec": spec, "pointer": ptr, "overlapped": overlapped})
     finally:
         rr.close()
 
 def run(ctx, scale):
     import random
     rng = ctx.rng
-    plan = [(2, 8), (1, 4), (3, 11)] if ctx.quick() else [(m, 3 * m + 2) for m in (1, 2, 3, 5)] * 8
+    plan = [(2, 8), (1, 4), (3, 11), (10, 13)] if ctx.quick() else [(m, 3 * m + 2) for m in (1, 2, 3, 5)] * 8 + [(10, 23), (11, 25), (12, 14)] * 2
     for (M, n) in plan * scale:
         history(ctx, random.Random(rng.getrandbits(32)), M, n)
 
